@@ -26,7 +26,7 @@ Next == \/ /\ l = 0 /\ sh = 0
 AllRules == {"C02.NoPanic", "C02.Json", "C02.Total", "C02.TotalHM", "C02.Now", "C02.Pwt",
              "C12.NoPanic", "C12.Rows", "C12.Sums", "C12.Today", "C12.TodayNow", "C12.Pwt",
              "C13.NoPanic", "C13.Select", "C13.Sort", "C13.Print",
-             "C14.NoPanic", "C14.JsonTags", "C14.Totals",
+             "C14.NoPanic", "C14.JsonTags", "C14.Totals", "C14.Match",
              "C17.Now", "C17.TodayNow",
              "C18.NoPanic", "C18.Strip", "C18.Plain", "C18.Widths",
              "C20.NoPanic", "C20.WellFormed", "C20.Record", "C20.Arithmetic"}
@@ -146,6 +146,9 @@ JShapesOf(js) == [k \in 1..Len(js) |-> JShape(js[k])]
 (* tags                                                                     *)
 (***************************************************************************)
 TagRowsExpected(R) == {<<key[1], key[2], TagTotal(R, key), TagCount(R, key)>> : key \in AllTagKeys(R)}
+(* the table pads its cells with blanks: blanks at the edges of a (quoted) value cannot be read back from it; *)
+(* such values are judged through the JSON view only (C14.JsonTags)                                           *)
+EdgeBlank(v) == v # "" /\ (IsSpaceOrTab(Ch(v, 1)) \/ IsSpaceOrTab(Ch(v, Len(v))))
 TagRowsObserved(rows) == {<<rows[i].name, rows[i].value, rows[i].total, rows[i].count>> : i \in 1..Len(rows)}
 
 (***************************************************************************)
@@ -215,6 +218,14 @@ Holds(r, ev, PD) ==
                 StartsWith(run.id, "json") /\ ~StartsWith(run.id, "json:sort") /\ ~StartsWith(run.id, "json:now") =>
                     /\ run.code = 0 /\ run.json.wellformed
                     /\ JShapesOf(run.json.records) = ShapesOf(Filter(R, QueryOf(c.runs[i].q)))
+      (* --tag selects exactly the entries (or whole records) carrying the tag, also next to other clauses *)
+      [] r = "C14.Match" -> live =>
+            \A i \in 1..Len(o.runs) :
+                LET run == o.runs[i] IN
+                StartsWith(run.id, "json") /\ ~StartsWith(run.id, "json:sort") /\ ~StartsWith(run.id, "json:now")
+                /\ Len(c.runs[i].q.tags) > 0 =>
+                    /\ run.code = 0 /\ run.json.wellformed
+                    /\ JShapesOf(run.json.records) = ShapesOf(Filter(R, QueryOf(c.runs[i].q)))
       [] r = "C13.Print" -> live =>
             \A i \in 1..Len(o.runs) :
                 LET run == o.runs[i] IN
@@ -234,6 +245,15 @@ Holds(r, ev, PD) ==
                         /\ \A k \in 1..(Len(js) - 1) :
                               IF asc THEN ParseDate(js[k][1]).ord <= ParseDate(js[k + 1][1]).ord
                               ELSE ParseDate(js[k][1]).ord >= ParseDate(js[k + 1][1]).ord
+                        (* the same order in the other views that sort: canonical text, text with totals *)
+                        /\ \A j \in 1..Len(o.runs) :
+                              LET x == o.runs[j]
+                                  up == EndsWith(x.id, "asc")
+                                  srt == SortRecs(Recs(PD), up)
+                              IN  /\ StartsWith(x.id, "sortprint:") /\ DistinctDates(R) =>
+                                        x.code = 0 /\ x.out = LF \o PrintDoc(srt) \o LF
+                                  /\ StartsWith(x.id, "pwt:sort-") /\ DistinctDates(R) =>
+                                        PwtOK(x, SortRecs(R, up))
       [] r = "C14.JsonTags" -> live /\ HasRun(o, "json") =>
             LET j == RunById(o, "json") IN
             /\ j.code = 0 /\ j.json.wellformed /\ j.json.tags_sorted
@@ -242,13 +262,13 @@ Holds(r, ev, PD) ==
                   /\ BagEq(j.json.records[k].tags, TagStrs(TagsOfLines(R[k].summary)))
                   /\ \A i \in 1..Len(R[k].entries) :
                         BagEq(j.json.records[k].entries[i].tags, TagStrs(TagsOfLines(R[k].entries[i].summary)))
-      [] r = "C14.Totals" -> live /\ HasRun(o, "tags") =>
+      [] r = "C14.Totals" -> live /\ HasRun(o, "tags") /\ ~(\E key \in AllTagKeys(R) : EdgeBlank(key[2])) =>
             LET t == RunById(o, "tags") IN
             /\ t.code = 0 /\ t.tags.parsed
             /\ TagRowsObserved(t.tags.rows) = TagRowsExpected(R)
             /\ Len(t.tags.rows) = Cardinality(TagRowsExpected(R))
       [] r = "C18.Strip" -> live =>
-            \A ci \in 1..9 : LET g == StyleGroup(o, ci) IN
+            \A ci \in 1..14 : LET g == StyleGroup(o, ci) IN
                 g # <<>> => AllEqual([i \in 1..Len(g) |-> g[i].stripped]) /\ AllEqual([i \in 1..Len(g) |-> g[i].code])
                             /\ \A i \in 1..Len(g) : ~g[i].has_esc
       [] r = "C18.Plain" -> live =>
@@ -256,7 +276,7 @@ Holds(r, ev, PD) ==
                 StartsWith(o.runs[i].id, "style:") /\ (\E s \in {":4", ":5", ":6"} : EndsWith(o.runs[i].id, s)) =>
                     o.runs[i].out = o.runs[i].stripped
       [] r = "C18.Widths" -> live =>
-            \A ci \in 4..9 : LET g == StyleGroup(o, ci) IN
+            \A ci \in 4..14 : ci # 10 => LET g == StyleGroup(o, ci) IN
                 \A i \in 1..Len(g) : AllEqual(g[i].widths)
       [] r = "C20.WellFormed" -> live =>
             \A i \in 1..Len(o.runs) : StartsWith(o.runs[i].id, "json") /\ o.runs[i].code = 0 =>
